@@ -175,6 +175,9 @@ func runC14(r *Run, p *Prog) {
 				"after a successful Accept there is a path to the next Accept or to a return that does not start the handler: the connection is dropped while possibly counted", witnessPos(p, w)...)
 			// arguments
 			args := sf.Go.Call.Args
+			if mc, ok := sf.Go.Call.Value.(*ssa.MakeClosure); ok {
+				args = append(append([]ssa.Value{}, args...), mc.Bindings...) // what a function literal captures is handed to it
+			}
 			connOK, wgOK := false, false
 			for _, a := range args {
 				if T.T(a) == "ext("+T.T(sf.Accept)+",0)" {
@@ -256,6 +259,11 @@ func runC14(r *Run, p *Prog) {
 					wgParam = T.T(prm)
 				}
 			}
+			for _, fv := range h.FreeVars {
+				if isNamed(fv.Type(), "sync", "WaitGroup") && wgParam == "" {
+					wgParam = T.T(fv) // a handler written (or seen) as a function literal of the serving call
+				}
+			}
 			isDone := func(in ssa.Instruction) bool {
 				ci, ok := in.(ssa.CallInstruction)
 				return ok && calleeName(ci.Common()) == "sync.WaitGroup.Done" && len(ci.Common().Args) > 0 && T.T(ci.Common().Args[0]) == wgParam
@@ -265,7 +273,7 @@ func runC14(r *Run, p *Prog) {
 				fmt.Sprintf("wg.Done() on the handler's WaitGroup parameter executed between %d and %d times: the serving call's wg.Wait() hangs or panics", lo, hi))
 		}
 		// census of counter writers
-		H := cg.Reach(keysOf(handlers), false)
+		H := cg.Reach(withOrigins(keysOf(handlers)), false)
 		S := ro.servingSide()
 		for _, f := range p.FuncsOf(pkgVarlink) {
 			for _, b := range f.Blocks {
@@ -400,6 +408,17 @@ func keysOf(m map[*ssa.Function]bool) []*ssa.Function {
 	var out []*ssa.Function
 	for f := range m {
 		out = append(out, f)
+	}
+	return out
+}
+
+// withOrigins: the functions and, for inlined views and closures copied into views, the built functions behind them.
+func withOrigins(fs []*ssa.Function) []*ssa.Function {
+	out := append([]*ssa.Function{}, fs...)
+	for _, f := range fs {
+		if o := origFn(f); o != f {
+			out = append(out, o)
+		}
 	}
 	return out
 }
